@@ -27,6 +27,9 @@ type SliceOpts struct {
 	HeapFields bool
 	// StopAt, when it returns true for a value, makes that value a leaf.
 	StopAt func(ssa.Value) bool
+	// NoIndex: do not follow the index operand of element accesses (range
+	// counters and their arithmetic are not part of the element's provenance).
+	NoIndex bool
 }
 
 // Slice is the result: leaves and every traversed value.
@@ -211,7 +214,9 @@ func (sl *slicer) visit(v ssa.Value, ctx *frame) {
 		sl.visit(x.X, ctx)
 	case *ssa.IndexAddr:
 		sl.visit(x.X, ctx)
-		sl.visit(x.Index, ctx)
+		if !sl.opts.NoIndex {
+			sl.visit(x.Index, ctx)
+		}
 	case *ssa.Extract:
 		if c, ok := x.Tuple.(*ssa.Call); ok {
 			sl.visitCall(c, x.Index, ctx)
@@ -413,7 +418,9 @@ func (sl *slicer) visitLoad(ld *ssa.UnOp, ctx *frame) {
 		}
 	case *ssa.IndexAddr:
 		sl.visit(a.X, ctx)
-		sl.visit(a.Index, ctx)
+		if !sl.opts.NoIndex {
+			sl.visit(a.Index, ctx)
+		}
 	case *ssa.Global:
 		s.leaf("global:"+globalName(p, a), ld)
 		if sl.opts.HeapFields {
@@ -596,6 +603,10 @@ func (sl *slicer) visitCall(c *ssa.Call, idx int, ctx *frame) {
 	p := s.p
 	s.Calls[c] = true
 	s.Values[c] = true
+	if sl.opts.StopAt != nil && sl.opts.StopAt(c) {
+		s.leaf("stop:"+p.CalleeName(c), c)
+		return
+	}
 	name := p.CalleeName(c)
 	callee := StaticCallee(c)
 	depth := 0
@@ -672,6 +683,11 @@ func (sl *slicer) visitContributors(o ssa.Value, except ssa.Instruction, ctx *fr
 			}
 		}
 		if !uses {
+			continue
+		}
+		// only calls that hand something to the object can contribute to its
+		// state: getters without further arguments do not
+		if len(Args(ci)) < 2 {
 			continue
 		}
 		if sl.s.Calls[ci] {
